@@ -6,6 +6,7 @@
    Batch file (JSON, IOEnv.TRACE_FILE):
      models : [ {sess: [s...], svcs: [[{sid, sf, subs: [..]} ...] per session]} ... ]
      traces : [ {id, m (1-based model index), B: [enabled switch names], mode: "E" | "A",
+                 indep (TRUE: every step starts in `init`, the steps are alternatives, not a history),
                  init: {s, l}, steps: [ {q: first request bytes, n, p,
                                          pk, pn, pb   reply before suppression ("bytes" | "none" | "unknown"),
                                          vk, vn, vb   reply sent ("bytes" | "none"),
@@ -34,7 +35,7 @@ tvars == <<tid, verdict>>
 
 Rep(k, n, b) == [k |-> k, n |-> n, b |-> b]
 StateOf(e)   == [session |-> e.s, level |-> e.l]
-Before(t, i) == IF i = 1 THEN StateOf(t.init) ELSE StateOf(t.steps[i - 1])
+Before(t, i) == IF i = 1 \/ t.indep THEN StateOf(t.init) ELSE StateOf(t.steps[i - 1])
 X(e) == [q |-> [b |-> e.q, n |-> e.n, p |-> e.p],
          pre |-> Rep(e.pk, e.pn, e.pb), vis |-> Rep(e.vk, e.vn, e.vb),
          raised |-> e.x, after |-> StateOf(e), acc |-> e.a, alive |-> e.al]
